@@ -66,7 +66,7 @@ class Prop(BaseProp):
             if te in allsp:
                 ctx.count("merge_spike_on_t_end")
             m = ctx.call(ps.merge_spike_trains, sts, _name="merge_spike_trains", _readonly=True)
-            got = m.spikes.tolist()
+            got = common.tl(m.spikes)
             ctx.expect(got == sorted(allsp), "merge:not-multiset-union", "merged %s, expected sorted multiset union %s (missing %s, extra %s)"
                        % (common.short(got), common.short(sorted(allsp)), dict(collections.Counter(allsp) - collections.Counter(got)), dict(collections.Counter(got) - collections.Counter(allsp))))
             ctx.expect(m.t_start == ts and m.t_end == te, "merge:edges", "edges [%r,%r]" % (m.t_start, m.t_end))
@@ -110,7 +110,7 @@ class Prop(BaseProp):
                 sts.append(extra)
                 if len(sts) > 2:
                     sts[1] = ps.SpikeTrain(np.array([], dtype=float), [ts, te])
-                all2 = [t for st_ in sts for t in st_.spikes.tolist()]
+                all2 = [t for st_ in sts for t in common.tl(st_.spikes)]
                 p2 = ctx.call(ps.psth, sts, b, _name="psth")
                 cnt2 = [0] * nb
                 for t in all2:
